@@ -292,9 +292,10 @@ func (c *Ctl) WaitPassed(point string, conn, tag, n int, d time.Duration) bool {
 
 // WaitPassedG is WaitPassed restricted to passes made on the worker goroutine of request gtag.
 func (c *Ctl) WaitPassedG(point string, conn, tag, gtag, n int, d time.Duration) bool {
-	deadline := time.Now().Add(d)
+	timedOut := false
 	timer := time.AfterFunc(d, func() {
 		c.mu.Lock()
+		timedOut = true
 		c.cond.Broadcast()
 		c.mu.Unlock()
 	})
@@ -302,7 +303,7 @@ func (c *Ctl) WaitPassedG(point string, conn, tag, gtag, n int, d time.Duration)
 	c.mu.Lock()
 	defer c.mu.Unlock()
 	for c.passed[passKey{point, conn, tag, gtag}] < n {
-		if time.Now().After(deadline) {
+		if timedOut {
 			return false
 		}
 		c.cond.Wait()
